@@ -19,6 +19,7 @@
 //   op <s> <kind> <args..>                 operation(s) queued before transaction s
 //   nd <s> <src> <what> <ids..>            src := imp | rr<i>; what := newj|newc|delj|delc|chgc
 //   conn <s> <id> <end> <end> <n> <x0> <y0> <xl> <yl>   displayRoute(): size, first and last point
+//   route <s> <id> <x> <y> ...             all points of displayRoute()
 //   junc <s> <id> <px> <py> <rx> <ry> <fixed> <nattached>
 //   pinpos <s> T<shape>:<cls> <x> <y> [<x> <y> ...]
 //   tbox <s> T<shape>:<cls> <x0> <y0> <x1> <y1>       current bounding box of the terminal's shape
@@ -103,6 +104,11 @@ void dumpState(Scene &sc, long s) {
             printf(" %s %s %s %s", vh::hx(a.x).c_str(), vh::hx(a.y).c_str(), vh::hx(b.x).c_str(), vh::hx(b.y).c_str());
         }
         printf("\n");
+        if (route.size() > 0) {
+            printf("route %ld %u", s, c->id());
+            for (size_t i = 0; i < route.size(); ++i) printf(" %s %s", vh::hx(route.ps[i].x).c_str(), vh::hx(route.ps[i].y).c_str());
+            printf("\n");
+        }
     }
     std::vector<JunctionRef *> js = liveJunctions(r);
     for (size_t i = 0; i < js.size(); ++i) {
@@ -227,6 +233,35 @@ const PinSpec PINSPECS[] = {
     {0.5, 0.5, ConnDirAll}, {0.5, 0.0, ConnDirUp}, {0.5, 1.0, ConnDirDown}, {0.0, 0.5, ConnDirLeft}, {1.0, 0.5, ConnDirRight},
     {0.25, 0.0, ConnDirUp}, {0.75, 1.0, ConnDirDown}, {0.0, 0.25, ConnDirLeft}, {1.0, 0.75, ConnDirRight},
 };
+
+
+// one-line description of why the child died: the failed assertion, or the sanitizer's error type
+// plus the innermost libavoid frame (no addresses, so that the text is stable across runs)
+std::string crashHeadline(const std::string &err) {
+    std::vector<std::string> lines;
+    { std::istringstream is(err); std::string l; while (std::getline(is, l)) lines.push_back(l); }
+    for (size_t i = 0; i < lines.size(); ++i) {
+        size_t p = lines[i].find("Assertion");
+        if (p != std::string::npos && lines[i].find("failed") != std::string::npos) {
+            // "<exe>: <file>:<line>: <function>: Assertion `...' failed."  -> drop the executable name
+            size_t q = lines[i].find(": ");
+            return (q != std::string::npos && q < p) ? lines[i].substr(q + 2) : lines[i].substr(p);
+        }
+    }
+    for (size_t i = 0; i < lines.size(); ++i) {
+        size_t p = lines[i].find("ERROR: AddressSanitizer: ");
+        if (p == std::string::npos) p = lines[i].find("runtime error: ");
+        if (p == std::string::npos) continue;
+        std::string head = lines[i].substr(p);
+        size_t q = head.find(" on address"); if (q != std::string::npos) head = head.substr(0, q);
+        for (size_t j = i + 1; j < lines.size() && j < i + 40; ++j) {
+            size_t f = lines[j].find(" in Avoid::");
+            if (lines[j].find("#") != std::string::npos && f != std::string::npos) { head += " at" + lines[j].substr(f + 3); break; }
+        }
+        return head;
+    }
+    return "(no assertion or sanitizer headline on stderr)";
+}
 
 void runCase(const vh::Args &a, long k, int klass) {
     vh::Rng r = vh::caseRng(a.seed, k);
@@ -494,22 +529,33 @@ int main(int argc, char **argv) {
     for (long k = 0; k < n; ++k) {
         if (!a.want(k)) continue;
         fflush(stdout); fflush(stderr);
+        FILE *errf = tmpfile();                 // the child's stderr, so that a crash can be quoted in the case
         pid_t pid = fork();
         if (pid < 0) { perror("fork"); return 3; }
         if (pid == 0) {
+            if (errf) dup2(fileno(errf), 2);
             runCase(a, k, (int) (k % 13));
             fflush(stdout);
             _exit(0);
         }
         int status = 0;
         waitpid(pid, &status, 0);
+        std::string err;
+        if (errf) {
+            rewind(errf);
+            char buf[4096]; size_t n;
+            while ((n = fread(buf, 1, sizeof buf, errf)) > 0) { err.append(buf, n); fwrite(buf, 1, n, stderr); }
+            fclose(errf);
+        }
         if (WIFEXITED(status) && WEXITSTATUS(status) == 0) continue;
         int code = WIFSIGNALED(status) ? 128 + WTERMSIG(status) : WEXITSTATUS(status);
         // replay of a single case: keep the protocol's CRASH convention (unterminated case + exit status)
         if (a.only >= 0) return code;
         // whole stream: close the case so that the remaining cases still run; the driver turns the
-        // `crash` line into a verdict for exactly this case (replay it with --only to see the report)
-        printf("\ncrash %d\n", code);
+        // `crash` line (exit status + the assertion / sanitizer headline from the child's stderr) into
+        // a verdict for exactly this case (replay it with --only to see the full report)
+        std::string what = crashHeadline(err);
+        printf("\ncrash %d %s\n", code, what.c_str());
         vh::endCase();
     }
     return 0;
